@@ -100,6 +100,21 @@ class Scripted:
         return method
 
 
+class DefaultingCache:
+    """A cache with Client's optional read arguments: a miss returns the default(s) it was given."""
+
+    def __init__(self, idx, op, kind, log):
+        self.idx, self.op, self.kind, self.log = idx, op, kind, log
+
+    def get(self, key, default=None):
+        self.log.append((self.idx, "get", (key, default), {}))
+        return read_answer("get", "hit", self.idx, []) if self.kind == "hit" else default
+
+    def gets(self, key, default=None, cas_default=None):
+        self.log.append((self.idx, "gets", (key, default, cas_default), {}))
+        return read_answer("gets", "hit", self.idx, []) if self.kind == "hit" else (default, cas_default)
+
+
 def read_answer(op, kind, idx, keys):
     """The value a scripted cache returns for read `op` under answer kind `kind`."""
     v = b"v%d" % idx
@@ -655,6 +670,8 @@ def jobs_for(tier):
         jobs.append(("history", n, None, tier))
     for n in range(1, rmax + 1):
         jobs.append(("real", n, None, tier))
+    for n in range(2, nmax + 1):
+        jobs.append(("optargs", n, None, tier))
     jobs.append(("surface", 0, None, tier))
     return jobs
 
@@ -723,6 +740,40 @@ def _worker(job, chk):
                 problems = run_history(n, assign, seq)
                 _record(chk, problems, ("history", n, seq, assign), {"mode": mode, "n": n, "seq": list(seq),
                                                                        "kinds": list(assign)})
+    elif mode == "optargs":
+        # optional read arguments of the Client interface (get: default; gets: default, cas_default).  If
+        # FallbackClient does not take them (TypeError from its own signature, nothing asked) there is nothing
+        # to judge; if it does, a cache that misses hands back the caller's default - which is a miss, not a hit
+        for op, extra_sets in (("get", [(("D",), {}), ((), {"default": "D"})]),
+                               ("gets", [(("D", "C"), {}), ((), {"default": "D", "cas_default": "C"}), ((), {"default": "D"})])):
+            for args, kw in extra_sets:
+                for assign in itertools.product(("hit", "miss"), repeat=n):
+                    log = []
+                    caches = [DefaultingCache(i, op, assign[i], log) for i in range(n)]
+                    fc = FallbackClient(caches)
+                    desc = f"FallbackClient({n} caches answering {list(assign)}).{op}('a', {', '.join([repr(a) for a in args] + [f'{k}={v!r}' for k, v in kw.items()])})"
+                    try:
+                        result = getattr(fc, op)("a", *args, **kw)
+                    except TypeError:
+                        if not log:
+                            chk.count("optional_read_arguments_not_offered")
+                            continue
+                        result = "<TypeError after consulting a cache>"
+                    chk.add()
+                    chk.outcome(("optargs", op, n, assign, bool(kw)))
+                    hit = next((i for i in range(n) if assign[i] == "hit"), None)
+                    exp = list(range(hit + 1)) if hit is not None else list(range(n))
+                    consulted = [e[0] for e in log]
+                    problems = []
+                    if consulted != exp:
+                        problems.append((f"optargs|{op}|wrong-consultation", f"{desc} consulted caches {consulted}; a cache that "
+                                         f"misses answers with the caller's default, so {exp} had to be asked"))
+                    elif hit is not None:
+                        want = read_answer(op, "hit", hit, [])
+                        if result != want:
+                            problems.append((f"optargs|{op}|wrong-result", f"{desc} returned {short(result)}; first hit is cache {hit}'s {short(want)}"))
+                    for sig, text in problems:
+                        chk.violation(sig, text, {"mode": mode, "n": n})
     elif mode == "surface":
         public = sorted(x for x in dir(FallbackClient) if not x.startswith("_") and callable(getattr(FallbackClient, x)))
         known = set(READS) | set(MUTATORS) | set(OTHER)
@@ -768,6 +819,10 @@ def replay(detail):
         else:
             wop, args = REAL_WRITES[detail["windex"]]
             problems, _ = run_real(tuple(detail["states"]), wop, args, False)
+    elif mode == "optargs":
+        tmp = runner.Check(PROPERTY, LEVEL, "quick", 0)
+        _worker(("optargs", detail["n"], None, "quick"), tmp)
+        problems = [(sg, v["what"]) for sg, v in tmp.violations.items()]
     elif mode == "history":
         problems = run_history(detail["n"], tuple(detail["kinds"]), tuple(detail["seq"]))
     else:
